@@ -1694,6 +1694,11 @@ let rec key_eq a b =
                        | y :: t4 -> (&&) (key_eq x y) (leq t3 t4))
                   in leq l1 l2)))
 
+type pyconst =
+| CScalar of scalar
+| CSeq of ntype * pyconst list
+| CSlice of pyconst * pyconst * pyconst
+
 (** val leaf_okb : ntype -> scalar -> bool **)
 
 let leaf_okb ty v =
@@ -1798,6 +1803,99 @@ let wf_top = function
    | NSlice (ty, a, b, c) -> wf_node (NSlice (ty, a, b, c))
    | _ -> false)
 | TopFrozen args -> forallb wf_node args
+
+(** val py_eq : pyconst -> pyconst -> bool **)
+
+let rec py_eq a b =
+  match a with
+  | CScalar x -> (match b with
+                  | CScalar y -> scalar_eq x y
+                  | _ -> false)
+  | CSeq (t1, l1) ->
+    (match b with
+     | CSeq (t2, l2) ->
+       (&&) (ntype_eqb t1 t2)
+         (let rec leq l3 l4 =
+            match l3 with
+            | [] -> (match l4 with
+                     | [] -> true
+                     | _ :: _ -> false)
+            | x :: r1 ->
+              (match l4 with
+               | [] -> false
+               | y :: r2 -> (&&) (py_eq x y) (leq r1 r2))
+          in leq l1 l2)
+     | _ -> false)
+  | CSlice (a1, b1, c1) ->
+    (match b with
+     | CSlice (a2, b2, c2) ->
+       (&&) ((&&) (py_eq a1 a2) (py_eq b1 b2)) (py_eq c1 c2)
+     | _ -> false)
+
+(** val key_value : key -> pyconst **)
+
+let rec key_value = function
+| KLeaf (_, v, _, _) -> CScalar v
+| KCont (_, _, l) -> CSeq (TPyTuple, (map key_value l))
+
+(** val first_by :
+    ('a1 -> pyconst) -> pyconst list -> 'a1 list -> 'a1 list **)
+
+let rec first_by val0 seen = function
+| [] -> []
+| x :: r ->
+  if existsb (fun s -> py_eq s (val0 x)) seen
+  then first_by val0 seen r
+  else x :: (first_by val0 (app seen ((val0 x) :: [])) r)
+
+(** val has_mult : cnode -> bool **)
+
+let rec has_mult = function
+| NSeq (_, literal, mult, args) ->
+  (||)
+    (match if literal then mult else None with
+     | Some _ -> true
+     | None -> false) (existsb has_mult args)
+| NSlice (_, a, b, c) -> (||) ((||) (has_mult a) (has_mult b)) (has_mult c)
+| _ -> false
+
+(** val frozen_key : bool -> bool -> cnode list -> key option **)
+
+let frozen_key fx guard args =
+  if (&&) guard (existsb has_mult args)
+  then None
+  else (match all_some (map (item_key fx true) args) with
+        | Some ks ->
+          Some (KCont (TPyFrozenset, true, (first_by key_value [] ks)))
+        | None -> None)
+
+(** val top_key2 : bool -> bool -> topnode -> key option **)
+
+let top_key2 fx guard t = match t with
+| TopFrozen args -> frozen_key fx guard args
+| _ -> top_key fx true t
+
+(** val hashable : cnode -> bool **)
+
+let rec hashable = function
+| NLeaf (_, _) -> true
+| NSeq (ty, _, _, args) ->
+  (&&) (ntype_eqb ty TPyTuple) (forallb hashable args)
+| _ -> false
+
+(** val wf_top2 : topnode -> bool **)
+
+let wf_top2 t =
+  (&&) (wf_top t)
+    (match t with
+     | TopFrozen args -> forallb hashable args
+     | _ -> true)
+
+(** val top_has_mult : topnode -> bool **)
+
+let top_has_mult = function
+| TopFrozen args -> existsb has_mult args
+| _ -> false
 
 type binop =
 | OAdd
